@@ -7,6 +7,8 @@ k = json.load(open('/verif/known_findings.json'))
 ids = {f['id'] for f in k['findings']}
 added = 0
 for f in new:
+    if f['signature'].get('pf') in ('nonascii-class-on-multibyte', 'multibyte-haystack') and list(f['signature']) == ['pf']:
+        f['id'] = '%s-e2e-%s' % (prop, f['signature']['pf'])
     if f['signature'].get('pf') == 'ill-formed-haystack' and 'strategy' in f['signature']:
         f['id'] = '%s-e2e-illformed' % prop
         f['signature'] = {'pf': 'ill-formed-haystack'}
